@@ -2167,10 +2167,15 @@ class WBEMConnection:  # pylint: disable=too-many-instance-attributes
                 # CIMClass.tocimxml() always ignores path
                 return _cim_xml.VALUE(obj.tocimxml().toxml())
             if isinstance(obj, list):
-                if obj and isinstance(obj[0], (CIMClassName, CIMInstanceName)):
-                    return _cim_xml.VALUE_REFARRAY([paramvalue(x) for x in obj])
                 # NULL array entries are represented the same way as in
                 # pywbem.tocimxml()
+                if any(isinstance(x, (CIMClassName, CIMInstanceName))
+                       for x in obj):
+                    return _cim_xml.VALUE_REFARRAY(
+                        [paramvalue(x) if x is not None else
+                         (_cim_xml.VALUE_NULL() if SEND_VALUE_NULL
+                          else _cim_xml.VALUE(None))
+                         for x in obj])
                 return _cim_xml.VALUE_ARRAY(
                     [paramvalue(x) if x is not None else
                      (_cim_xml.VALUE_NULL() if SEND_VALUE_NULL
